@@ -324,6 +324,8 @@ def embed(items, rng):
             continue
         expr = head[k + 5:]
         name, tmpl = CONTEXTS[rng.randrange(len(CONTEXTS))]
+        if tmpl.count("%s") > 1 and "<-" in body:
+            continue   # evaluating a channel receive three times would block the original program itself
         out.append((fam + "@" + name, head[:k] + (tmpl.replace("%s", "\0").replace("\0", expr))))
     return out
 
